@@ -38,6 +38,11 @@ fn rust_nightly() {
     let stdout = String::from_utf8(version.stdout).unwrap();
     assert!(stdout.contains("rustc"), "Sanity check");
     let nightly = stdout.contains("nightly") || stdout.contains("dev");
+    // Verification hook (guard: `--cfg starlark_verif`): keep the stable-compiler
+    // configuration even when the verification tool's own compiler is a nightly.
+    if std::env::var_os("CARGO_CFG_STARLARK_VERIF").is_some() {
+        return;
+    }
     if nightly {
         println!("cargo:rustc-cfg=rust_nightly");
     }
